@@ -678,23 +678,44 @@ func ruleR166(c *Ctx) {
 				if fd.Type.Params == nil || len(fd.Type.Params.List) == 0 || len(fd.Type.Params.List[0].Names) == 0 {
 					return "?"
 				}
-				pobj := info.Defs[fd.Type.Params.List[0].Names[0]]
 				kinds := map[string]bool{}
-				ast.Inspect(fd.Body, func(x ast.Node) bool {
-					switch t := x.(type) {
-					case *ast.CallExpr:
-						if sel, ok := ast.Unparen(t.Fun).(*ast.SelectorExpr); ok {
-							if id, ok := ast.Unparen(sel.X).(*ast.Ident); ok && info.ObjectOf(id) == pobj {
-								kinds["the method "+sel.Sel.Name+"()"] = true
+				var scan func(fd *ast.FuncDecl, pobj types.Object, depth int)
+				scan = func(fd *ast.FuncDecl, pobj types.Object, depth int) {
+					ast.Inspect(fd.Body, func(x ast.Node) bool {
+						switch t := x.(type) {
+						case *ast.CallExpr:
+							if sel, ok := ast.Unparen(t.Fun).(*ast.SelectorExpr); ok {
+								if id, ok := ast.Unparen(sel.X).(*ast.Ident); ok && info.ObjectOf(id) == pobj {
+									kinds["the method "+sel.Sel.Name+"()"] = true
+								}
+							}
+							// the value is handed to a helper of the package: what the helper does with it counts
+							if depth < 2 {
+								if cal := Callee(info, t); cal != nil && cal.Pkg() == pkg.Types {
+									if hd := findFuncDecl(pkg, cal); hd != nil && hd.Body != nil && hd.Type.Params != nil {
+										k := 0
+										for _, fl := range hd.Type.Params.List {
+											for _, nm := range fl.Names {
+												if k < len(t.Args) {
+													if aid, ok := ast.Unparen(t.Args[k]).(*ast.Ident); ok && info.ObjectOf(aid) == pobj {
+														scan(hd, info.Defs[nm], depth+1)
+													}
+												}
+												k++
+											}
+										}
+									}
+								}
+							}
+						case *ast.TypeAssertExpr:
+							if id, ok := ast.Unparen(t.X).(*ast.Ident); ok && info.ObjectOf(id) == pobj && t.Type != nil {
+								kinds["a type assertion to "+nodeStr(c.Fset, t.Type)] = true
 							}
 						}
-					case *ast.TypeAssertExpr:
-						if id, ok := ast.Unparen(t.X).(*ast.Ident); ok && info.ObjectOf(id) == pobj && t.Type != nil {
-							kinds["a type assertion to "+nodeStr(c.Fset, t.Type)] = true
-						}
-					}
-					return true
-				})
+						return true
+					})
+				}
+				scan(fd, info.Defs[fd.Type.Params.List[0].Names[0]], 0)
 				var ks []string
 				for k := range kinds {
 					ks = append(ks, k)
